@@ -16,6 +16,9 @@ func vCheckStack(s *Stack[int], ref []int, what string) {
 	for i := range sl {
 		vAssert(sl[i] == ref[n-1-i], what+": Slice is in LIFO order")
 	}
+	for i := range sl {
+		sl[i] = -12345 // the result is a copy: writing to it must not reach the stack
+	}
 	if n == 0 {
 		vAssert(sl == nil, what+": Slice of an empty stack is nil")
 	}
